@@ -543,3 +543,136 @@ func mkDecl(name string, value []Token, important bool) pa.Declaration {
 func spellImportant(r *rng.R) string {
 	return randSep(r, false) + "!" + randSep(r, false) + randCase(r, "important") + randSep(r, false)
 }
+
+// respell re-spells a declaration text with units / function names / idents in lower case (used to
+// classify what a spelling difference is caused by).  Returns the text and the lower-cased function
+// names that were changed.
+func respell(decl string, units, fns, idents bool) (string, []string) {
+	return respellFn(decl, units, fns, idents, "")
+}
+
+// onlyFn != "": only that function name is lower-cased
+func respellFn(decl string, units, fns, idents bool, onlyFn string) (string, []string) {
+	cs := pa.ParseBlocksContentsString(decl)
+	var changed []string
+	var rec func(ts []Token) []Token
+	rec = func(ts []Token) []Token {
+		out := make([]Token, len(ts))
+		for i, t := range ts {
+			switch v := t.(type) {
+			case pa.Dimension:
+				if units {
+					v.Unit = asciiLower(v.Unit)
+				}
+				out[i] = v
+			case pa.Ident:
+				if idents && !strings.HasPrefix(v.Value, "--") {
+					v.Value = asciiLower(v.Value)
+				}
+				out[i] = v
+			case pa.FunctionBlock:
+				if fns && v.Name != asciiLower(v.Name) && (onlyFn == "" || onlyFn == asciiLower(v.Name)) {
+					v.Name = asciiLower(v.Name)
+					changed = append(changed, v.Name)
+				}
+				v.Arguments = rec(v.Arguments)
+				out[i] = v
+			default:
+				out[i] = t
+			}
+		}
+		return out
+	}
+	for _, c := range cs {
+		if d, ok := c.(pa.Declaration); ok {
+			s := d.Name + ":" + pa.Serialize(rec(d.Value))
+			if d.Important {
+				s += " !important"
+			}
+			return s, changed
+		}
+	}
+	return decl, nil
+}
+
+// classifySpelling names the cause of a spelling difference: "" when it is not explained by the case
+// of units, function names or keywords alone.
+func classifySpelling(name, variant, want string) string {
+	try := func(u, f, i bool) (bool, []string) {
+		t, ch := respell(variant, u, f, i)
+		return declsText(preprocessText(t)) == want, ch
+	}
+	if ok, _ := try(true, false, false); ok {
+		return "upper-case-unit"
+	}
+	if ok, ch := try(false, true, false); ok {
+		sort.Strings(ch)
+		for _, fn := range ch {
+			t, _ := respellFn(variant, false, true, false, fn)
+			if declsText(preprocessText(t)) == want {
+				return "upper-case-function:" + fn
+			}
+		}
+		return "upper-case-function:several"
+	}
+	if ok, _ := try(false, false, true); ok {
+		return "upper-case-keyword:" + asciiLower(name)
+	}
+	if ok, _ := try(true, true, true); ok {
+		return "upper-case-mixed:" + asciiLower(name)
+	}
+	// whitespace / comments: re-serialise with everything lower-cased, then (a) comments removed,
+	// (b) whitespace at the start and end of function arguments removed
+	low, _ := respell(variant, true, true, true)
+	if t := stripLayout(low, true, false); declsText(preprocessText(t)) == want {
+		return "comment-sensitive:" + asciiLower(name)
+	}
+	if t := stripLayout(low, true, true); declsText(preprocessText(t)) == want {
+		return "whitespace-in-function:" + asciiLower(name)
+	}
+	return ""
+}
+
+// stripLayout removes comments (replaced by a space at top level) and optionally the whitespace
+// at the start and end of function arguments.
+func stripLayout(decl string, comments, edges bool) string {
+	cs := pa.ParseBlocksContentsString(decl)
+	var rec func(ts []Token, inFn bool) []Token
+	rec = func(ts []Token, inFn bool) []Token {
+		var out []Token
+		for _, t := range ts {
+			switch v := t.(type) {
+			case pa.Comment:
+				if comments {
+					out = append(out, pa.NewWhitespace(" ", pa.Pos{}))
+					continue
+				}
+				out = append(out, t)
+			case pa.FunctionBlock:
+				v.Arguments = rec(v.Arguments, true)
+				out = append(out, v)
+			default:
+				out = append(out, t)
+			}
+		}
+		if inFn && edges {
+			for len(out) > 0 && out[0].Kind() == pa.KWhitespace {
+				out = out[1:]
+			}
+			for len(out) > 0 && out[len(out)-1].Kind() == pa.KWhitespace {
+				out = out[:len(out)-1]
+			}
+		}
+		return out
+	}
+	for _, c := range cs {
+		if d, ok := c.(pa.Declaration); ok {
+			s := d.Name + ":" + pa.Serialize(rec(d.Value, false))
+			if d.Important {
+				s += " !important"
+			}
+			return s
+		}
+	}
+	return decl
+}
